@@ -49,6 +49,7 @@ func main() {
 		known  = flag.String("known", "/verif/known_findings.jsonl", "known findings file")
 	)
 	flag.Parse()
+	c07.RaceBuild = raceEnabled
 	p, ok := props()[*prop]
 	if !ok {
 		fmt.Fprintf(os.Stderr, "unknown property %q\n", *prop)
@@ -138,8 +139,11 @@ func (r *racedProp) Run(c interface{}, focus *core.Violation) *core.Outcome {
 	for _, v := range viols {
 		o.Count("race_reports_with_gorm_access", 1)
 		if focus != nil {
-			if focus.Class == v.Class && focus.Key == v.Key && o.Violation == nil {
-				o.Violation = v
+			// replay / shrinking: the detector reports one pair per address and stack
+			// per process, and which pair comes first depends on the process's history;
+			// a report that shares a racing function with the recorded one reproduces it
+			if focus.Class == v.Class && sharesFunction(focus.Key, v.Key) && o.Violation == nil {
+				o.Violation = &core.Violation{Class: v.Class, Key: focus.Key, Detail: v.Detail}
 			}
 			continue
 		}
